@@ -786,15 +786,79 @@ class Result:
         return f'<{self.status} {self.t:.2f}s>'
 
 
+def _rat_atoms(r, out):
+    """Ids of all atoms of a Rat, including those inside the arguments of sqrt / abs / fn atoms."""
+    U = T.universe()
+    todo = list(r.atoms())
+    while todo:
+        i = todo.pop()
+        if i in out:
+            continue
+        out.add(i)
+        a = U.atoms[i]
+        arg = a.arg
+        if arg is None:
+            continue
+        for x in (arg if isinstance(arg, tuple | list) else (arg,)):
+            try:
+                todo.extend(x.atoms())
+            except AttributeError:
+                pass
+    return out
+
+
+def _b_atoms(b, out):
+    k = b.kind
+    if k == 'cmp':
+        _rat_atoms(b.a, out)
+    elif k in ('and', 'or'):
+        for x in b.a:
+            _b_atoms(x, out)
+    elif k == 'not':
+        _b_atoms(b.a, out)
+    return out
+
+
+def _relevant_definitions(bs):
+    """Definitions of auxiliary atoms (rnd!k, trunc!k, intconv!k, ...) are kept for the whole job, but a query only gets the
+    ones in its cone of influence: a definition speaks about terms that exist on the path that created it (its lowering
+    asserts their denominators non-zero), and must not constrain a path on which that auxiliary value was never formed."""
+    if not CTX.definitions:
+        return []
+    U = T.universe()
+    needed = set()
+    raw = False
+    for b in bs:
+        if b.kind == 'z3':
+            raw = True
+        _b_atoms(b, needed)
+    info = []
+    for d in CTX.definitions:
+        at = _b_atoms(d, set())
+        fresh_ = {i for i in at if '!' in U.atoms[i].name}
+        info.append((d, at, fresh_))
+    chosen = [False] * len(info)
+    changed = True
+    while changed:
+        changed = False
+        for k, (d, at, fresh_) in enumerate(info):
+            if chosen[k]:
+                continue
+            if not fresh_ or raw and d.kind == 'z3' or (fresh_ & needed):
+                chosen[k] = True
+                needed |= at
+                changed = True
+    return [d for (d, _a, _f), c in zip(info, chosen, strict=True) if c]
+
+
 def solve(constraints, timeout_ms=20000, want_model=True, tactic=None) -> Result:
     """Satisfiability of a conjunction of B's (with atom definitions)."""
     L = Lowerer()
-    zs = [L.b(B.lift(c)) for c in constraints]
-    # definitions introduced by floordiv / round
-    k = 0
-    while k < len(CTX.definitions):
-        zs.append(L.b(CTX.definitions[k]))
-        k += 1
+    bs = [B.lift(c) for c in constraints]
+    zs = [L.b(c) for c in bs]
+    # definitions introduced by floordiv / round / trunc: those in the cone of influence of this query
+    for d in _relevant_definitions(bs):
+        zs.append(L.b(d))
     s = z3.Solver() if tactic is None else z3.Tactic(tactic).solver()
     s.set('timeout', int(timeout_ms))
     # atoms may add defs while lowering others: iterate
